@@ -447,6 +447,12 @@ def stream_cases(quick):
     pairs1 = [(a, b) for a in one for b in one if a or b]
     pairs2 = [(a, b) for a in two for b in two if a or b]
     few = [(('E+1',), ('20E',)), (('20E',), ('E+1',)), (('20E',), ('20E',)), (('1',), ('1',))]
+    # both directions at once with more frames each way than the 32 credits an end ever holds (both ends run out of
+    # credits with data still queued: the credits have to travel in frames of their own)
+    big = [(('70E',), ('70E',)), (('33E',), ('33E',)), (('70E',), ('33E',)), (('33E', '70E'), ('70E',))]
+    for cfg in cfg0 + (cfg1[:6] if quick else cfg1):
+        for a, b in big:
+            cases.append((cfg, {'mode': 'burst', 'c': a, 's': b}))
     if quick:
         for cfg in cfg0:
             for a, b in pairs2:
